@@ -139,21 +139,28 @@ class C16Phh(Monitor):
         names = [type(o).__name__ for o in s.operations]
         first_deal = names.index('HoleDealing') if 'HoleDealing' in names else len(names)
         early_show = 'HoleCardsShowingOrMucking' in names[:first_deal]
+        final, applied = None, 0
         try:
-            final = None
-            for final in hh:
-                pass
+            for final, act in hh.state_actions:
+                applied += act is not None
         except Exception as ex:  # noqa: BLE001
+            if s.status and applied >= len(hh.actions):
+                # the played hand was not finished; every recorded action has been re-applied and the failure
+                # happened while the replay was completing the hand on its own: the engine's business (C07)
+                ex = None
             unknown_dealt = any(type(o).__name__ in ('HoleDealing', 'BoardDealing') and not all(o.cards) for o in s.operations)
-            if isinstance(ex, KeyError) and unknown_dealt:
+            if ex is None:
+                pass
+            elif isinstance(ex, KeyError) and unknown_dealt:
                 # an unknown card where the engine needs to rank cards (stud openers, showdown): the engine's
                 # own limitation with unknown cards (C07's quantifier excludes it), not a matter of the format
                 return
-            if plain:
+            elif plain:
                 self.report('replay', ('show_before_deal:' if early_show else '') + f'replay_raises:{type(ex).__name__}',
                             f'replaying the loaded history raises {type(ex).__name__}: {ex}'
                             + (' (a show/muck was accepted before any card was dealt and is written as `pN sm`)' if early_show else ''))
-            return
+            if ex is not None:
+                return
         if early_show:
             return
         if not plain or final is None:
@@ -194,7 +201,10 @@ class C16Phh(Monitor):
                 self.report('replay', 'stacks_differ', f'final stacks played {list(s.stacks)} payoffs {list(s.payoffs)}, replayed '
                             f'{list(final.stacks)} payoffs {list(final.payoffs)} (status {final.status})')
             # a history that cannot be applied must be reported, not silently cut short
-            bad = HandHistory.loads(hh.dumps())
+            try:
+                bad = HandHistory.loads(hh.dumps())
+            except Exception:  # noqa: BLE001  (already reported by the round-trip clause)
+                return
             bad.actions = list(bad.actions) + ['p1 cbr 7']
             try:
                 for _ in bad:
